@@ -234,6 +234,18 @@ func runReport(prop string, t *simrt.Tape, keep bool) simrt.Outcome {
 		var m vegeta.Metrics
 		m.Histogram = &vegeta.Histogram{Buckets: append(vegeta.Buckets(nil), bounds...)}
 		ticks := 0
+		// the report command builds its reporter once and calls it at every tick and again after the last record
+		r.repHDR = false
+		switch t.Choose(4) {
+		case 0:
+			r.rep = vegeta.NewTextReporter(&m)
+		case 1:
+			r.rep = vegeta.NewJSONReporter(&m)
+		case 2:
+			r.rep = vegeta.NewHistogramReporter(m.Histogram)
+		case 3:
+			r.rep, r.repHDR = vegeta.NewHDRHistogramPlotReporter(&m), true
+		}
 		r.guard(prop, "Metrics.Add/Close", func() {
 			for i := 0; i <= n; i++ {
 				if closes[i] {
@@ -261,6 +273,11 @@ func runReport(prop string, t *simrt.Tape, keep bool) simrt.Outcome {
 		r.log.Addf("history %d ticks=%d", h, ticks)
 		checkFinal(r, &m, ref, n)
 		checkPercentiles(r, &m, ref.sorted, "final", shape)
+		r.guard(prop, "reporter", func() { render(r, ref.sorted, "final", shape) })
+		if !r.repHDR && r.viol == nil {
+			r.rep, r.repHDR = vegeta.NewHDRHistogramPlotReporter(&m), true
+			r.guard(prop, "reporter", func() { render(r, ref.sorted, "final", shape) })
+		}
 		checkHistogram(r, m.Histogram, rs, nil, bounds, true)
 		if first == nil {
 			first = &m
@@ -401,6 +418,7 @@ func checkTick(r *run, m *vegeta.Metrics, rs []vegeta.Result, added []int, bound
 		sub = append(sub, int64(rs[i].Latency))
 	}
 	sort.Slice(sub, func(i, j int) bool { return sub[i] < sub[j] })
+	render(r, sub, "tick", r.shape)
 	checkPercentiles(r, m, sub, "tick", r.shape)
 	checkHistogram(r, m.Histogram, rs, added, bounds, false)
 }
@@ -424,44 +442,12 @@ func checkPercentiles(r *run, m *vegeta.Metrics, sorted []int64, when, shape str
 			return
 		}
 	}
-	slack := 1 + 0.01*float64(n)
 	for _, q := range []struct {
 		q float64
 		v time.Duration
 		n string
 	}{{0.5, lm.P50, "p50"}, {0.9, lm.P90, "p90"}, {0.95, lm.P95, "p95"}, {0.99, lm.P99, "p99"}} {
-		ideal := q.q * float64(n)
-		// ranks may be counted from 0 or from 1: the weaker reading accepts either convention
-		// (1-based ranks in [ideal-slack, ideal+slack+1])
-		lo := int(math.Ceil(ideal - slack))
-		hi := int(math.Floor(ideal+slack)) + 1
-		if lo < 1 {
-			lo = 1
-		}
-		if hi > n {
-			hi = n
-		}
-		a, b := sorted[lo-1], sorted[hi-1]
-		if int64(q.v) < a || int64(q.v) > b {
-			// characterise the miss: between which adjacent observations does the value lie, and how far (in ranks) are they
-			tags := map[string]string{"when": when, "q": q.n, "shape": shape, "cause": "other"}
-			params := map[string]float64{"n": float64(n)}
-			i := sort.Search(n, func(i int) bool { return sorted[i] >= int64(q.v) }) // first observation >= value
-			if i > 0 && i < n && sorted[i] > int64(q.v) && sorted[i-1] < int64(q.v) {
-				// strictly between the adjacent observations of ranks i and i+1 (1-based): an interpolated value
-				tags["cause"] = "interpolated-across-gap"
-				far := math.Max(math.Abs(float64(i)-ideal), math.Abs(float64(i+1)-ideal))
-				params["rank_error_pct_of_n"] = far / float64(n) * 100
-				params["gap_ratio"] = float64(sorted[i]-sorted[i-1]) / math.Max(1, float64(sorted[n-1]-sorted[0])) // share of the whole range spanned by this one gap
-			}
-			v := fmt.Sprintf("%s = %v for %d latencies (%s): the observed values at ranks %d..%d (ideal rank %.2f, allowed error 1+1%%) are %v..%v",
-				q.n, q.v, n, shape, lo, hi, ideal, time.Duration(a), time.Duration(b))
-			if r.prop == "C11" && r.viol == nil {
-				r.viol = &simrt.Violation{Prop: "C11", Class: "C11.rank-error", Msg: v, Tags: tags, Params: params}
-				r.log.Addf("VIOLATION C11.rank-error %s", v)
-			} else {
-				r.fail("C11", "C11.rank-error", tags, "%s", v)
-			}
+		if !checkRank(r, sorted, q.q, q.v, q.n, when, shape) {
 			return
 		}
 	}
@@ -473,33 +459,98 @@ func checkPercentiles(r *run, m *vegeta.Metrics, sorted []int64, when, shape str
 			}
 		}
 	}
-	if when == "final" {
-		var buf bytes.Buffer
-		var err error
-		r.guard("C11", "hdrplot reporter", func() { err = vegeta.NewHDRHistogramPlotReporter(m).Report(&buf) })
-		if err != nil {
-			r.fail("C11", "C11.hdrplot-error", nil, "hdrplot reporter failed: %v", err)
+	r.stats["probe.percentiles-checked-"+when]++
+}
+
+// render calls the history's reporter as the report command does at a tick or at the end.
+func render(r *run, sorted []int64, when, shape string) {
+	if r.rep == nil || r.viol != nil {
+		return
+	}
+	var buf bytes.Buffer
+	err := r.rep.Report(&buf)
+	r.stats["probe.report-rendered-"+when]++
+	if !r.repHDR {
+		return // the text, JSON and histogram renderings are judged by C10 and C12 checks
+	}
+	if err != nil {
+		r.fail("C11", "C11.hdrplot-error", nil, "hdrplot reporter failed: %v", err)
+		return
+	}
+	checkHDRPlot(r, buf.String(), sorted, when, shape)
+}
+
+// checkRank judges one reported percentile: it must lie between two observed latencies whose ranks are within
+// 1 + 1% of n of the ideal rank q*n. It reports false after recording a violation.
+func checkRank(r *run, sorted []int64, q float64, v time.Duration, name, when, shape string) bool {
+	n := len(sorted)
+	slack := 1 + 0.01*float64(n)
+	ideal := q * float64(n)
+	// ranks may be counted from 0 or from 1: the weaker reading accepts either convention
+	// (1-based ranks in [ideal-slack, ideal+slack+1])
+	lo := int(math.Ceil(ideal - slack))
+	hi := int(math.Floor(ideal+slack)) + 1
+	if lo < 1 {
+		lo = 1
+	}
+	if hi > n {
+		hi = n
+	}
+	a, b := sorted[lo-1], sorted[hi-1]
+	if int64(v) >= a && int64(v) <= b {
+		return true
+	}
+	// characterise the miss: between which adjacent observations does the value lie, and how far (in ranks) are they
+	tags := map[string]string{"when": when, "q": name, "shape": shape, "cause": "other"}
+	params := map[string]float64{"n": float64(n)}
+	i := sort.Search(n, func(i int) bool { return sorted[i] >= int64(v) }) // first observation >= value
+	if i > 0 && i < n && sorted[i] > int64(v) && sorted[i-1] < int64(v) {
+		// strictly between the adjacent observations of ranks i and i+1 (1-based): an interpolated value
+		tags["cause"] = "interpolated-across-gap"
+		far := math.Max(math.Abs(float64(i)-ideal), math.Abs(float64(i+1)-ideal))
+		params["rank_error_pct_of_n"] = far / float64(n) * 100
+		params["gap_ratio"] = float64(sorted[i]-sorted[i-1]) / math.Max(1, float64(sorted[n-1]-sorted[0])) // share of the whole range spanned by this one gap
+	}
+	msg := fmt.Sprintf("%s = %v for %d latencies (%s): the observed values at ranks %d..%d (ideal rank %.2f, allowed error 1+1%%) are %v..%v",
+		name, v, n, shape, lo, hi, ideal, time.Duration(a), time.Duration(b))
+	if r.prop == "C11" && r.viol == nil {
+		r.viol = &simrt.Violation{Prop: "C11", Class: "C11.rank-error", Msg: msg, Tags: tags, Params: params}
+		r.log.Addf("VIOLATION C11.rank-error %s", msg)
+	} else {
+		r.fail("C11", "C11.rank-error", tags, "%s", msg)
+	}
+	return false
+}
+
+// checkHDRPlot judges one rendering of the HDR-histogram report: well-formed rows, values that never decrease
+// as the percentile grows, and every row's value within the rank bound of its percentile.
+func checkHDRPlot(r *run, out string, sorted []int64, when, shape string) {
+	n := len(sorted)
+	prev := math.Inf(-1)
+	for i, line := range strings.Split(strings.TrimSpace(out), "\n") {
+		f := strings.Fields(line)
+		if i == 0 || len(f) < 4 {
+			continue
+		}
+		v, perr := strconv.ParseFloat(f[0], 64)
+		q, qerr := strconv.ParseFloat(f[1], 64)
+		if perr != nil || qerr != nil {
+			r.fail("C11", "C11.hdrplot-format", nil, "hdrplot line %q", line)
 			return
 		}
-		prev := math.Inf(-1)
-		for i, line := range strings.Split(strings.TrimSpace(buf.String()), "\n") {
-			f := strings.Fields(line)
-			if i == 0 || len(f) < 4 {
-				continue
-			}
-			v, perr := strconv.ParseFloat(f[0], 64)
-			if perr != nil {
-				r.fail("C11", "C11.hdrplot-format", nil, "hdrplot line %q", line)
+		if v < prev {
+			r.fail("C11", "C11.hdrplot-decreasing", nil, "hdrplot value %v at percentile %s is below the previous row's %v (%d latencies, %s)", v, f[1], prev, n, shape)
+			return
+		}
+		prev = v
+		if n > 0 {
+			// the value is printed in milliseconds with six decimals: exact to the nanosecond below 2^53 ns
+			if ns := math.Round(v * 1e6); ns < 1<<53 && !checkRank(r, sorted, q, time.Duration(ns), "hdrplot row "+f[1], when, shape) {
 				return
 			}
-			if v < prev {
-				r.fail("C11", "C11.hdrplot-decreasing", nil, "hdrplot value %v at percentile %s is below the previous row's %v (%d latencies, %s)", v, f[1], prev, n, shape)
-				return
-			}
-			prev = v
 		}
 	}
-	r.stats["probe.percentiles-checked-"+when]++
+	r.stats["probe.hdrplot-rows-checked-"+when]++
 }
 
 func checkHistogram(r *run, h *vegeta.Histogram, rs []vegeta.Result, added []int, bounds []time.Duration, final bool) {
